@@ -1,7 +1,7 @@
 (* C15 -- relayout is lazy, dirtiness is exact.  Engine-skeleton theorems, every algorithm satisfying WF and H1. *)
 From Coq Require Import List Bool Arith NArith.
 From TV Require Import Model.Engine Model.EngineToy Proofs.EngineMemo Proofs.EngineDirty Proofs.EngineHistory
-  Proofs.EngineFrame Proofs.EngineToyProofs.
+  Proofs.EngineFrame Proofs.EngineToyProofs Proofs.EngineTotal.
 Import ListNotations.
 
 (* recomputing the layout of an unchanged tree with the same input is answered by the root's cache entry: the tree is
@@ -78,8 +78,42 @@ Example C15_example :
   map (fun t => dirty TS TIn TOut TLay t) (ex_run :: kids_of _ _ _ _ ex_run) = [false; false; false].
 Proof. exact ex_flags. Qed.
 
+(* non-vacuity of the premises, on the 4-node toy tree (root 0; child 0 = node 1, display:none, with a child 3; child 1 =
+   node 2): the fresh tree satisfies Inv (= Valid, J, B); its first pass SUCCEEDS (Some, not the out-of-fuel None) and
+   changes the tree (caches filled); the second pass with a single unit of fuel returns the same output and the same tree
+   (the instance of C15_second_pass_silent: one unit of fuel cannot reach any child, so nothing below the root is evaluated);
+   after the pass no node outside the display:none region is dirty; path [1] is visible and marking it dirties exactly the
+   root and node 2 (the instance of C15_mark_exact) *)
+Definition ex_pass1 : ttree :=
+  step TS TIn TOut TLay t_mode t_in_eqb t_is_none 0%N 0%N t_algo' ex_tree (OLayout _ _ _ _ 8 (PerformLayout, 5%N)).
+
+Example C15_example_premises :
+  Inv TS TIn TOut TLay t_mode t_is_none 0%N t_algo' ex_tree /\
+  visible_path TS TIn TOut TLay t_is_none ex_pass1 [1] /\
+  (exists o, memo TS TIn TOut TLay t_mode t_in_eqb t_is_none 0%N 0%N t_algo' 8 ex_tree (PerformLayout, 5%N) = Some (o, ex_pass1) /\
+             ex_pass1 <> ex_tree /\
+             memo TS TIn TOut TLay t_mode t_in_eqb t_is_none 0%N 0%N t_algo' 1 ex_pass1 (PerformLayout, 5%N) = Some (o, ex_pass1)) /\
+  map (dirty TS TIn TOut TLay) (ex_pass1 :: kids_of _ _ _ _ ex_pass1) = [false; false; false] /\
+  map (dirty TS TIn TOut TLay) (let t := mark_dirty TS TIn TOut TLay ex_pass1 [1] in t :: kids_of _ _ _ _ t) = [true; false; true].
+Proof.
+  split; [apply Inv_fresh|]. split; [cbn; auto|].
+  split; [exists 2%N; split; [vm_compute; reflexivity|]; split; [vm_compute; discriminate | vm_compute; reflexivity]|].
+  split; vm_compute; reflexivity.
+Qed.
+
+(* the premise `memo f t i = Some (o, t')` is never false for lack of fuel: for every algorithm that addresses only children
+   that exist, fuel >= the height of the tree suffices, whatever the caches hold (so None means an out-of-range child index) *)
+Theorem C15_pass_succeeds_with_enough_fuel :
+  forall (S In Out Lay : Type) (mode : In -> RunMode) (in_eqb : In -> In -> bool) (is_none : S -> bool)
+         (hidden_out : Out) (zero_lay : Lay) (algo : S -> list S -> In -> Alg In Out Lay),
+    (forall s st i, Bounded In Out Lay (length st) (algo s st i)) ->
+    forall f t i, height S In Out Lay t <= f ->
+      exists o t', memo S In Out Lay mode in_eqb is_none hidden_out zero_lay algo f t i = Some (o, t').
+Proof. intros until algo. intros HB f t i Hh. apply memo_total; assumption. Qed.
+
 Print Assumptions C15_second_pass_silent.
 Print Assumptions C15_clean_after_pass.
 Print Assumptions C15_full_means_not_dirty.
 Print Assumptions C15_mark_exact.
 Print Assumptions C15_invariants_reachable.
+Print Assumptions C15_pass_succeeds_with_enough_fuel.
